@@ -181,8 +181,9 @@ example (K : Bool) (F : Nat) : ChunkXor2.StRel K F 0 ChunkXor2.appInit ChunkXor2
 
 /-- The one-sample simulation step for samples ≥ 2 INCLUDING the start-timestamp data (fast path / active-ST
     path / first-change path with the forced change at index 127): iterator state tracks appender state.
-    Its timestamp+value half is `xor2_joint_roundtrip` (proved); the ST bookkeeping half is written out in
-    `PromProofs/ChunkXor2Sim.lean` history but its elaboration did not finish in the time budget. -/
+    Its timestamp+value half is `xor2_joint_roundtrip` (proved); the proof script for the ST bookkeeping
+    half is kept as a comment at the end of `PromProofs/ChunkXor2Round.lean`: its elaboration did not
+    terminate within the time budget (suspected: a definitional-unfolding blow-up on `% two64`). -/
 def xor2_step_full : Prop := ChunkXor2.StepN
 
 /-- Whole XOR2 chunks including start timestamps: decoding the chunk bytes (sample count, ST header byte,
